@@ -412,7 +412,7 @@ class T:
             self.tlen,
             self.taxis,
             self.eshape,
-            self.nan if nan == "same" else nan,
+            self.nan if isinstance(nan, str) else nan,
         )
 
     def __hash__(self):
@@ -710,9 +710,9 @@ class T:
     def _map(self, fn, dtype=None, nan="same"):
         dtype = dtype or self.dtype
         if self.tlen is None:
-            return T(fn(self.f), dtype, None, None, self.eshape, self.nan if nan == "same" else nan)
+            return T(fn(self.f), dtype, None, None, self.eshape, self.nan if isinstance(nan, str) else nan)
         f = self.f
-        r = T(lambda t: fn(f(t)), dtype, self.tlen, self.taxis, self.eshape, self.nan if nan == "same" else nan)
+        r = T(lambda t: fn(f(t)), dtype, self.tlen, self.taxis, self.eshape, self.nan if isinstance(nan, str) else nan)
         r.pure_time = self.pure_time
         return r
 
@@ -813,7 +813,18 @@ class T:
         return self.float()._map(lambda x: f_exp(x), "float")
 
     def log(self):
-        return self.float()._map(lambda x: f_log(x), "float")
+        x = self.float()
+        if not LOG_DEFINEDNESS[0]:
+            return x._map(lambda v: f_log(v), "float")
+        # definedness mode: log of a non-positive number is not a finite real (-inf / NaN); the result carries the
+        # "not a finite number" flag there, which propagates through arithmetic like NaN (0 * -inf = NaN, x - inf = -inf)
+        old = x.nan
+        if x.tlen is None:
+            bad = x.f <= 0 if old is None else z3.Or(x.f <= 0, old)
+        else:
+            f, on = x.f, (old if callable(old) else (lambda t, v=old: v))
+            bad = (lambda t: f(t) <= 0) if old is None else (lambda t: z3.Or(f(t) <= 0, on(t)))
+        return x._map(lambda v: f_log(v), "float", nan=bad)
 
     def sqrt(self):
         return self.float()._map(lambda x: f_sqrt(x), "float")
@@ -1295,6 +1306,7 @@ class T:
 
 
 LAYOUT_FREE = [False]
+LOG_DEFINEDNESS = [False]  # opt-in (contracts over domains where log(0) is reachable): see T.log
 VALIDATION_TEST = [0]  # > 0 while the interpreter evaluates the test of an `if ...: raise` / assert statement
 
 
